@@ -19,7 +19,7 @@ ASSUMPTIONS = [
 
 SUBJECT_SETS = {
     "ab1_5": ("ab1", 5), "ab1_4": ("ab1", 4), "ab1_3": ("ab1", 3),
-    "aAb_4": ("aAb", 4), "abn_4": ("ab\n", 4), "mix_3": ("aA1_ \n", 3),
+    "aAb_4": ("aAb", 4), "abn_4": ("ab\n", 4), "mix_3": ("aA1_ \n", 3), "abc_5": ("abc", 5), "mix_4": ("aA1_ \n", 4), "abz1_4": ("abcz1", 4),
 }
 _subj_cache = {}
 
@@ -140,8 +140,30 @@ HARD_CORES = [
     r"(a*)*", r"(a*)+", r"(a|ab)(c|bcd)(d*)", r"(z)((a+)?(b+)?(c))*", r"(a)|b", r"(?:(a)|b)+", r"(?:(a)|(b))+\1\2",
     r"(a*?)*?b", r"(?=(a+))a*b\1", r"(?=(a+))", r"(.*?)a(?!(a+)b\2c)\2(.*)", r"(?<=(\w)+)1", r"(?<=\1(a))b",
     r"(?<!(a))b\1", r"\b\w+\b", r"^(?:a|\n)*$", r"(a)\1*", r"(?:a?){2}b", r"(?:a{0,2}){2}", r"(a|b)*?\1", r"(?:(a)\1)+",
-    r"((a)|(b))+", r"(a+)+1", r"[^a]*a", r"(?:^|\s)a", r"a$|b", r"(?:)*", r"(?:a|())+", r"(\2)(a)", r"(?=a)*?",
+    r"((a)|(b))+", r"(a+)+1", r"[^a]*a", r"(?:^|\s)a", r"a$|b", r"(?:a|())+", r"(\2)(a)", r"(?:(?=(a))a|b)*", r"(?:(?!(a))b|a)*",
+    r"(?:(?<=(a))b|a)*", r"(?<=(?<=a)b)c", r"(?<!(?<=a)b)c", r"(?<=a(?=b))b", r"(?=(?<=(a))b)", r"(?:(a)|b)*\1", r"(?:(a)|(b)|c)*",
+    r"(a{1,2}?)(a*)", r"(a{2,})\1", r"(?:(a){2}){2}", r"((a)?){3}", r"(?:(a)?b)*", r"(a?)*?b", r"([ab])\1", r"(.)\1|(.)\2?",
+    r"^(a+?)\1*$", r"(?:a(?=(b))|a(?=(c)))+", r"(\s)?\w\1", r"(?:\b(a)|(\B)a)+", r"(a)(?!\1)b?", r"(?:(a)(?:(b)|c))+", r"((?:a|b)+?)(b*)$",
+    r"(?=(a*))\1b", r"(?!(a)b)\1?a", r"(^a|b$)+", r"(?:($)|a)*", r"a*?$", r"(?:a*?)+?b", r"(a|ab|abc)*c", r"(?:(ab)|(a)|(b))*$",
 ]
+WRAPS = ["%s", "(?:%s)*", "(?:%s)+?", "(%s)?", "(?:%s|b)", "(?=%s)", "(?!%s)a", "(?<=%s)", "(?:%s){2}", "^(?:%s)$", "(?:%s)*?c", "a(?:%s)"]
+
+
+def _core_cases(skey, flags=""):
+    from mc.oracle.regexref import parse
+    out, seen = [], set()
+    for core in HARD_CORES:
+        for w in WRAPS:
+            src = w % core
+            if src in seen:
+                continue
+            seen.add(src)
+            try:
+                ast = parse(src)
+            except ValueError:
+                continue
+            out.append(("/%s/%s on %s" % (src, flags, skey), {"p": src, "f": flags, "ast": ast, "s": skey, "script": False}))
+    return out
 
 
 def spaces(tier, seed, all_strata=False):
@@ -154,6 +176,13 @@ def spaces(tier, seed, all_strata=False):
         _space("c09_size4", lambda: _cases(4, G.ATOMS12, "", "ab1_4", minsize=4),
                "all pattern ASTs of size 4 over 12 atoms; subjects over {a,b,1} up to length 4 (121)",
                "AST size 4, |s| <= 4"),
+        _space("c09_cores_abc", lambda: _core_cases("abc_5"),
+               "60 hand-picked hard cores (capture reset in loops, empty iterations, forward/backward/self references, lookaround "
+               "inside loops, nested lookbehind, lazy/greedy interplay, alternation order) under 12 wrappers (loops, optional, "
+               "lookaround, counted, anchored); every subject over {a,b,c} up to length 5", "cores x wrappers"),
+        _space("c09_cores_mixed", lambda: _core_cases("abz1_4") + _core_cases("mix_3", "i") + _core_cases("mix_3", "m"),
+               "the same patterns on subjects over {a,b,c,z,1} up to length 4, and with flags i / m over {a,A,1,_,space,newline}",
+               "cores x wrappers"),
         _space("c09_flag_i", lambda: _cases(3, G.ATOMS12, "i", "aAb_4"), "size <= 3, flag i, subjects over {a,A,b}", "size <= 3"),
         _space("c09_flag_m", lambda: _cases(3, G.ATOMS12, "m", "abn_4"), "size <= 3, flag m, subjects over {a,b,\\n}", "size <= 3"),
         _space("c09_flag_s", lambda: _cases(3, G.ATOMS12, "s", "abn_4"), "size <= 3, flag s, subjects over {a,b,\\n}", "size <= 3"),
